@@ -185,6 +185,24 @@ def run_go_test(out, unit, tier, seed, workdir, overlay):
             return run_go_test(out, u2, tier, seed, workdir, overlay)
         out.inconclusive.append("%s: build failed, see %s" % (name, log_path))
         return
+    # a panic that ended the monitor process: the innermost frame that belongs to the repository decides whose it is.
+    # Library code (not a zz_verif_* file) panicking on an input the monitor fed it is a violation of the
+    # property under test (none of them allows a crash on the inputs they quantify over); a panic whose
+    # innermost repository frame is the monitor's own file is a defect of the monitor: inconclusive.
+    mp = re.search(r"^(?:panic|fatal error): [^\n]*\n(?:.*\n)*?goroutine \d+ \[running\]:\n((?:.*\n)+?)(?:\n|FAIL|exit status)", log, re.M)
+    if rc != 0 and mp:
+        frames = re.findall(r"^(\S[^\n]*)\n\t(\S+\.go):(\d+)", mp.group(1), re.M)
+        repo_frames = [f for f in frames if f[0].startswith(MOD) or "/smgo/" in f[1]]
+        if repo_frames and not os.path.basename(repo_frames[0][1]).startswith("zz_verif"):
+            fn = re.sub(r"\(.*$", "", repo_frames[0][0]).replace(MOD, "")
+            kind = re.search(r"^(?:panic|fatal error): ([^\n]*)", log, re.M).group(1)
+            last = ""
+            if os.path.exists(jr_path):
+                lines = open(jr_path, errors="replace").read().strip().split("\n")
+                last = lines[-1] if lines else ""
+            out.violation("library-panics:%s:%s" % (name, fn), {"panic": kind[:300], "innermost_library_frame": "%s %s:%s" % repo_frames[0], "called_from": ["%s %s:%s" % f for f in repo_frames[1:4]],
+                                                                 "last_journalled_case": last, "log_tail": log[-2500:]}, name)
+            return
     if rc != 0 and nrep < unit.get("reports", 1):
         # the monitor process died before writing its report: the journal names the case
         last = ""
